@@ -303,6 +303,42 @@ fn run_inner(sc: &J) -> Result<Option<String>, String> {
                 Err(e) => Ok(Some(format!("file cannot be opened: {e}"))),
             }
         }
+        // C13/C03: a sink error during a flush is REPORTED, and the values stay pending: once the sink works again a later flush (or
+        // into_inner / drop) delivers them, and values appended in between join them — nothing is lost, duplicated or reordered.
+        // The failing call is the FIRST write call of the block (nothing of the block has been accepted, so the retry is clean);
+        // every codec, with the retry as flush / append+flush / into_inner / drop.
+        "container_flush_retry" => {
+            let schema = Schema::parse_str("\"long\"").map_err(|e| e.to_string())?;
+            for codec_name in ["null", "deflate", "snappy", "zstandard", "bzip2", "xz"] {
+                for finish in ["flush", "append+flush", "into_inner", "drop"] {
+                    // header length = number of sink calls the header takes with accept = MAX: measured on a healthy sink
+                    let mut probe_sink = FaultySink { data: Vec::new(), accept: usize::MAX, fail_at: None, calls: 0 };
+                    { let mut w = apache_avro::Writer::builder().schema(&schema).writer(&mut probe_sink).codec(parse_codec(codec_name)).marker([6u8; 16]).build().map_err(|e| e.to_string())?;
+                      w.append_value_ref(&Value::Long(1)).map_err(|e| e.to_string())?; }
+                    // calls made for "header" by the first append = calls before the block; the writer was dropped, so subtract the block's
+                    let mut hdr_sink = FaultySink { data: Vec::new(), accept: usize::MAX, fail_at: None, calls: 0 };
+                    let hdr_calls = { let mut w = apache_avro::Writer::builder().schema(&schema).writer(&mut hdr_sink).codec(parse_codec(codec_name)).marker([6u8; 16]).build().map_err(|e| e.to_string())?;
+                      w.flush().map_err(|e| e.to_string())?; let c = w.get_ref().calls; std::mem::forget(w); c };
+                    let mut sink = FaultySink { data: Vec::new(), accept: usize::MAX, fail_at: Some(hdr_calls), calls: 0 };
+                    let mut expect = vec![Value::Long(10), Value::Long(-20), Value::Long(30)];
+                    let mut w = apache_avro::Writer::builder().schema(&schema).writer(&mut sink).codec(parse_codec(codec_name)).marker([6u8; 16]).build().map_err(|e| e.to_string())?;
+                    w.flush().map_err(|e| format!("header flush: {e}"))?;
+                    for v in &expect { w.append_value_ref(v).map_err(|e| e.to_string())?; }
+                    if w.flush().is_ok() { return Ok(Some(format!("codec {codec_name}: the flush whose first block write fails returned Ok"))); }
+                    match finish {
+                        "flush" => { w.flush().map_err(|e| format!("retry: {e}"))?; drop(w); }
+                        "append+flush" => { w.append_value_ref(&Value::Long(44)).map_err(|e| e.to_string())?; expect.push(Value::Long(44)); w.flush().map_err(|e| format!("retry: {e}"))?; drop(w); }
+                        "into_inner" => { w.into_inner().map_err(|e| format!("into_inner: {e}"))?; }
+                        _ => drop(w),
+                    }
+                    match apache_avro::Reader::new(&sink.data[..]).map_err(|e| e.to_string()).and_then(|rd| rd.collect::<Result<Vec<Value>, _>>().map_err(|e| e.to_string())) {
+                        Ok(vs) if vs == expect => {}
+                        other => return Ok(Some(format!("codec {codec_name}, finish by {finish}: the flush failed once (reported), then every call returned Ok; the file reads back as {other:?}, appended {expect:?}"))),
+                    }
+                }
+            }
+            Ok(None)
+        }
         // C14: a file of `blocks` (each a list of hex datums under `schema`) cut at `cut` (or at every offset if absent):
         // values delivered = values of the blocks wholly before the cut; an error unless the cut is a block boundary
         // (or inside/at the header: opening fails).  With `flip` = byte offset, that byte is inverted instead.
@@ -633,6 +669,17 @@ fn run_inner(sc: &J) -> Result<Option<String>, String> {
                 let ok_above = if what == "bytes" { rd.read_deser::<serde_bytes::ByteBuf>(&mut &above[..]).is_ok() } else { rd.read_deser::<String>(&mut &above[..]).is_ok() };
                 if !ok_at { return Ok(Some(format!("serde deserializer: {what} of length {l} == limit is rejected"))); }
                 if ok_above { return Ok(Some(format!("serde deserializer: {what} of length {} > limit {l} is accepted", l + 1))); }
+            }
+            // schema-sized requests of the logical types over fixed: decimal (any size) — uuid and duration have fixed sizes 16 / 12
+            for (size, must_ok) in [(l, true), (l + 1, false)] {
+                if size == 0 { continue; }
+                let fx = Schema::parse_str(&format!("{{\"type\":\"fixed\",\"name\":\"fd\",\"size\":{size},\"logicalType\":\"decimal\",\"precision\":1,\"scale\":0}}")).map_err(|e| e.to_string())?;
+                let data = vec![0u8; size];
+                let g = apache_avro::from_avro_datum(&fx, &mut &data[..], None).is_ok();
+                if g != must_ok { return Ok(Some(format!("generic decoder: decimal over fixed of size {size} under limit {l}: accepted = {g}"))); }
+                let rd = apache_avro::reader::datum::GenericDatumReader::builder(&fx).build().map_err(|e| e.to_string())?;
+                let d = rd.read_deser::<serde_bytes::ByteBuf>(&mut &data[..]).is_ok();
+                if d != must_ok { return Ok(Some(format!("serde deserializer: decimal over fixed of size {size} under limit {l}: accepted = {d}"))); }
             }
             for (size, must_ok) in [(l, true), (l + 1, false)] {
                 let fx = Schema::parse_str(&format!("{{\"type\":\"fixed\",\"name\":\"f\",\"size\":{size}}}")).map_err(|e| e.to_string())?;
